@@ -471,7 +471,8 @@ func c15Clients(w *C15World) []fosite.Client {
 	pool := c15Pool()
 	out := make([]fosite.Client, len(w.Clients))
 	for i, c := range w.Clients {
-		dc := &fosite.DefaultClient{ID: c.ID, GrantTypes: append([]string{}, c.Grants...)}
+		// the clients' own registered scopes are broad: the JWT-bearer grant is confined by the SIGNING KEY's registration only
+		dc := &fosite.DefaultClient{ID: c.ID, GrantTypes: append([]string{}, c.Grants...), Scopes: append([]string{"admin", "offline", "users.*", "a.*", "b.*"}, c15ScopePool...)}
 		if !c.OIDC {
 			out[i] = dc
 			continue
